@@ -33,6 +33,41 @@ pub struct Case {
     pub extra_wrap: usize,
     /// thresholds as (position index, delta) pairs: t = r[pos] + delta * 1e-3
     pub thresholds: Vec<(usize, i8)>,
+    /// what is done to the wildcard column (the property only asks the NON-wildcard entries to be finite):
+    /// 0 = left as generated; 1 = +inf in every third row; 2 = every row made constant over the real
+    /// symbols with a finite wildcard cell above it; 3 = real cells within 1e-30 of each other and a
+    /// wildcard cell of 1e10
+    #[serde(default)]
+    pub wild: u8,
+}
+
+fn effective_mat(case: &Case) -> MatSpec {
+    let mut mat = case.mat.clone();
+    let k = case.abc.k();
+    for (i, r) in mat.rows.iter_mut().enumerate() {
+        match case.wild {
+            1 => {
+                if i % 3 == 0 {
+                    r[k - 1] = Fl(f32::INFINITY);
+                }
+            }
+            2 => {
+                let v = r[0].0;
+                for x in r[..k - 1].iter_mut() {
+                    *x = Fl(v);
+                }
+                r[k - 1] = Fl(v + 1.0 + (i % 4) as f32);
+            }
+            3 => {
+                for (j, x) in r[..k - 1].iter_mut().enumerate() {
+                    *x = Fl(j as f32 * 1e-31);
+                }
+                r[k - 1] = Fl(1e10);
+            }
+            _ => {}
+        }
+    }
+    mat
 }
 
 pub fn embed_word(cells: &[Vec<f32>], k: usize, e: &Embed, idx: &mut Vec<u8>) {
@@ -72,9 +107,10 @@ fn strategy(tier: Tier) -> BoxedStrategy<Case> {
                 prop_oneof![2 => Just(Embed::None), 3 => any::<usize>().prop_map(Embed::Consensus), 1 => any::<usize>().prop_map(Embed::Anti)],
                 prop_oneof![3 => Just(0usize), 1 => 1usize..=33],
                 proptest::collection::vec((any::<usize>(), -2i8..=2), 0..4),
+                prop_oneof![12 => Just(0u8), 1 => Just(1u8), 1 => Just(2u8), 1 => Just(3u8)],
             )
         })
-        .prop_map(|(abc, seq, mat, embed, extra_wrap, thresholds)| Case { abc, seq, mat, embed, extra_wrap, thresholds })
+        .prop_map(|(abc, seq, mat, embed, extra_wrap, thresholds, wild)| Case { abc, seq, mat, embed, extra_wrap, thresholds, wild })
         .boxed()
 }
 
@@ -97,7 +133,7 @@ fn judge(
 ) -> Option<Failure> {
     let sig_wrap = format!("{}:underestimate:{}", name, WRAP_CLASS);
     for i in 0..r32.len() {
-        if !r32[i].is_finite() && r32[i] != f32::NEG_INFINITY {
+        if r32[i].is_nan() {
             continue;
         }
         if wraps && sums[i] > 255 && c.cx.is_excluded(&sig_wrap) {
@@ -135,11 +171,12 @@ where
     Pipeline<A, lightmotif::pli::platform::Generic>: Score<u8, A, U32>,
 {
     let k = case.abc.k();
-    let cells = case.mat.cells();
+    let mat = effective_mat(case);
+    let cells = mat.cells();
     let m = cells.len();
     let mut idx = case.seq.expand(k);
     embed_word(&cells, k, &case.embed, &mut idx);
-    let pssm = build_pssm::<A>(&case.mat);
+    let pssm = build_pssm::<A>(&mat);
     let dm: DiscreteMatrix<A> = pssm.to_discrete();
     // the conversion traits are the same discretisation
     for (name, other) in [("From<&ScoringMatrix>", DiscreteMatrix::<A>::from(&pssm)), ("From<ScoringMatrix>", DiscreteMatrix::<A>::from(pssm.clone()))] {
@@ -202,11 +239,12 @@ where
 
 fn run_dna_simd(case: &Case, cx: &Cx, info: &mut CaseInfo) -> (Option<Failure>, u64) {
     let k = 5;
-    let cells = case.mat.cells();
+    let mat = effective_mat(case);
+    let cells = mat.cells();
     let m = cells.len();
     let mut idx = case.seq.expand(k);
     embed_word(&cells, k, &case.embed, &mut idx);
-    let pssm = build_pssm::<Dna>(&case.mat);
+    let pssm = build_pssm::<Dna>(&mat);
     let dm = pssm.to_discrete();
     let symbols = syms::<Dna>(&idx);
     let mut striped: StripedSequence<Dna, U32> = Pipeline::<Dna, _>::generic().stripe(&symbols);
@@ -266,6 +304,9 @@ impl Sub for Over {
             return Verdict::Pass(CaseInfo::new());
         }
         let mut info = CaseInfo::new();
+        info.class_if(case.wild == 1, "wildcard-cell=+inf");
+        info.class_if(case.wild == 2, "rows-constant-over-real-symbols,wildcard-above");
+        info.class_if(case.wild == 3, "real-cells-within-1e-30,wildcard=1e10");
         let (f, mut excluded) = match case.abc {
             Abc::Dna => {
                 info.class("dna");
